@@ -30,7 +30,11 @@ pub fn vx_clone_pair(p: &VxPair) -> (r: VxPair) ensures r == *p { unimplemented!
 pub struct VxParseErr { pub e: int }
 // parsers::locust::parse_lines: the pest grammar (outside Verus): the top-level statements of the text, or a syntax error
 #[verifier::external_body]
-pub fn parse_lines(lines: &str) -> (r: Result<Vec<VxPair>, VxParseErr>) { unimplemented!() }
+pub fn parse_lines(lines: &str) -> (r: Result<Vec<VxPair>, VxParseErr>)
+    ensures match r { Ok(v) => spec_parse(lines@) == Some(v@), Err(_) => spec_parse(lines@).is_none() }
+{ unimplemented!() }
+// what the grammar makes of a text: its top-level nodes, or nothing when the text is not a well-formed script (keywords that do not balance)
+pub uninterp spec fn spec_parse(text: Seq<char>) -> Option<Seq<VxPair>>;
 
 // ---- THE STOP RULE of C15: after `set -e`, a failing command (the last result so far) ends the script ----
 pub open spec fn stop_spec(c: Seq<CommandResult>, sh: Shell) -> bool { c.len() > 0 && c.last().status != 0 && sh.exit_on_error }
@@ -41,18 +45,92 @@ pub fn vx_slice_last(v: &[CommandResult]) -> (r: Option<&CommandResult>)
 
 // ghost log of one activation of a runner: how many statements (rounds) were started, and after each of them whether the stop rule held
 // and how many had been started by then
-pub ghost struct RunLog { pub started: int, pub checks: Seq<(bool, int)> }
+// (C14) evs: which runner each statement was handed to, in order (a command line as it is run; an if / for / while node; for an if also the in_loop flag it was given);
+// ifs: per statement started, the (continue, break) answer of the `if` it was (None for every other kind); in_loop / node: what this activation was entered with
+pub ghost enum Ev { Cmd(Seq<char>), If(VxPair, bool), For(VxPair), While(VxPair) }
+pub ghost struct RunLog { pub started: int, pub checks: Seq<(bool, int)>, pub evs: Seq<Ev>, pub ifs: Seq<Option<(bool, bool)>>, pub in_loop: bool, pub node: VxPair, pub diagnosed: bool }
 #[verifier::external_body]
 pub proof fn note_start(tracked lg: &mut RunLog)
-    ensures final(lg).started == old(lg).started + 1, final(lg).checks == old(lg).checks
+    ensures final(lg).started == old(lg).started + 1, final(lg).checks == old(lg).checks, final(lg).evs == old(lg).evs, final(lg).ifs == old(lg).ifs.push(None),
+            final(lg).in_loop == old(lg).in_loop, final(lg).node == old(lg).node, final(lg).diagnosed == old(lg).diagnosed
 { unimplemented!() }
 #[verifier::external_body]
 pub proof fn note_check(tracked lg: &mut RunLog, stop: bool)
-    ensures final(lg).started == old(lg).started, final(lg).checks == old(lg).checks.push((stop, old(lg).started))
+    ensures final(lg).started == old(lg).started, final(lg).checks == old(lg).checks.push((stop, old(lg).started)), final(lg).evs == old(lg).evs, final(lg).ifs == old(lg).ifs,
+            final(lg).in_loop == old(lg).in_loop, final(lg).node == old(lg).node, final(lg).diagnosed == old(lg).diagnosed
+{ unimplemented!() }
+#[verifier::external_body]
+pub proof fn note_entry(tracked lg: &mut RunLog, node: VxPair, in_loop: bool)
+    ensures final(lg).started == old(lg).started, final(lg).checks == old(lg).checks, final(lg).evs == old(lg).evs, final(lg).ifs == old(lg).ifs,
+            final(lg).in_loop == in_loop, final(lg).node == node, final(lg).diagnosed == old(lg).diagnosed
+{ unimplemented!() }
+#[verifier::external_body]
+pub proof fn note_ev(tracked lg: &mut RunLog, e: Ev)
+    ensures final(lg).started == old(lg).started, final(lg).checks == old(lg).checks, final(lg).evs == old(lg).evs.push(e), final(lg).ifs == old(lg).ifs,
+            final(lg).in_loop == old(lg).in_loop, final(lg).node == old(lg).node, final(lg).diagnosed == old(lg).diagnosed
+{ unimplemented!() }
+#[verifier::external_body]
+pub proof fn note_if(tracked lg: &mut RunLog, c: bool, b: bool)
+    requires old(lg).ifs.len() > 0
+    ensures final(lg).started == old(lg).started, final(lg).checks == old(lg).checks, final(lg).evs == old(lg).evs, final(lg).ifs == old(lg).ifs.drop_last().push(Some((c, b))),
+            final(lg).in_loop == old(lg).in_loop, final(lg).node == old(lg).node, final(lg).diagnosed == old(lg).diagnosed
 { unimplemented!() }
 // a fresh log for a nested activation
 #[verifier::external_body]
-pub proof fn new_log() -> (tracked r: RunLog) ensures r.started == 0, r.checks.len() == 0 { unimplemented!() }
+pub proof fn new_log() -> (tracked r: RunLog) ensures r.started == 0, r.checks.len() == 0, r.evs.len() == 0, r.ifs.len() == 0, !r.diagnosed { unimplemented!() }
+
+// ---- THE STRUCTURED SEMANTICS of a body (C14): what one statement is, by the text and rule of its node ----
+pub enum Kind { Skip, Diag, Cont, Brk, Cmd, If, For, While, Nothing }
+pub open spec fn kw_continue() -> Seq<char> { "continue"@ }
+pub open spec fn kw_break() -> Seq<char> { "break"@ }
+pub open spec fn kind_of(p: VxPair, in_loop: bool) -> Kind {
+    let t = spec_trim(pair_text(p));
+    if t.len() == 0 { Kind::Skip }
+    else if pair_rule(p) == Rule::CMD {
+        if t == kw_continue() { if in_loop { Kind::Cont } else { Kind::Diag } }
+        else if t == kw_break() { if in_loop { Kind::Brk } else { Kind::Diag } }
+        else { Kind::Cmd }
+    }
+    else if pair_rule(p) == Rule::EXP_IF { Kind::If }
+    else if pair_rule(p) == Rule::EXP_FOR { Kind::For }
+    else if pair_rule(p) == Rule::EXP_WHILE { Kind::While }
+    else { Kind::Nothing }
+}
+// the positional-parameter pass over a line (contract in U-ARGS): here a function of the line and of the arguments
+pub uninterp spec fn spec_expand_args(line: Seq<char>, args: Seq<String>) -> Seq<char>;
+// the runner a statement is handed to
+pub open spec fn ev_of(p: VxPair, in_loop: bool, args: Seq<String>) -> Seq<Ev> {
+    match kind_of(p, in_loop) {
+        Kind::Cmd => seq![Ev::Cmd(spec_expand_args(spec_trim(pair_text(p)), args.skip(1)))],
+        Kind::If => seq![Ev::If(p, in_loop)],
+        Kind::For => seq![Ev::For(p)],
+        Kind::While => seq![Ev::While(p)],
+        _ => Seq::empty(),
+    }
+}
+pub open spec fn evs_upto(ch: Seq<VxPair>, n: int, in_loop: bool, args: Seq<String>) -> Seq<Ev>
+    decreases n
+{
+    if n <= 0 { Seq::empty() } else { evs_upto(ch, n - 1, in_loop, args) + ev_of(ch[n - 1], in_loop, args) }
+}
+// statement k (node p) did not ask to leave the body: it is neither `continue` / `break` in a loop nor an `if` that met one
+pub open spec fn exit_none(ifs: Seq<Option<(bool, bool)>>, in_loop: bool, p: VxPair, k: int) -> bool {
+    match kind_of(p, in_loop) {
+        Kind::Cont => false,
+        Kind::Brk => false,
+        Kind::If => ifs[k].is_some() && !ifs[k].unwrap().0 && !ifs[k].unwrap().1,
+        _ => true,
+    }
+}
+// the (continue, break) answer statement k (node p) gives when it ends the body
+pub open spec fn exit_flags(ifs: Seq<Option<(bool, bool)>>, in_loop: bool, p: VxPair, k: int) -> Option<(bool, bool)> {
+    match kind_of(p, in_loop) {
+        Kind::Cont => Some((true, false)),
+        Kind::Brk => Some((false, true)),
+        Kind::If => if ifs[k].is_some() && ifs[k].unwrap().0 { Some((true, false)) } else if ifs[k].is_some() && ifs[k].unwrap().1 { Some((false, true)) } else { None },
+        _ => None,
+    }
+}
 // nothing was started after a statement that left the stop rule true
 pub open spec fn nothing_after_stop(lg: RunLog) -> bool { forall|k: int| 0 <= k < lg.checks.len() && (#[trigger] lg.checks[k]).0 ==> lg.checks[k].1 == lg.started }
 // ... so far: every check made before the current statement was negative
@@ -60,7 +138,7 @@ pub open spec fn no_stop_so_far(lg: RunLog) -> bool { forall|k: int| 0 <= k < lg
 
 // ---- what a statement runs: external, any effect on the shell (a statement may itself be `set -e` / `set +e`) ----
 #[verifier::external_body]
-pub fn expand_args(line: &str, args: &[String]) -> (r: String) { unimplemented!() }
+pub fn expand_args(line: &str, args: &[String]) -> (r: String) ensures r@ == spec_expand_args(line@, args@) { unimplemented!() }
 #[verifier::external_body]
 pub fn vx_args_tail(args: &Vec<String>) -> (r: &[String]) requires args@.len() >= 1 ensures r@ == args@.skip(1) { &args[1..] }
 #[verifier::external_body]
@@ -72,13 +150,20 @@ pub fn run_exp_for(sh: &mut Shell, pair_for: VxPair, args: &Vec<String>, capture
 
 // ---- run_exp_if: the branches are tried in the order they are written, up to and including the first whose test passes ----
 // per branch tried: (its test passed, it met `continue`, it met `break`)
-pub ghost struct IfLog { pub tried: Seq<(bool, bool, bool)> }
+// (C14) calls: the node and the in_loop flag each call of the branch runner was given, in order (recorded by the runner's stand-in itself)
+pub ghost struct IfLog { pub tried: Seq<(bool, bool, bool)>, pub calls: Seq<(VxPair, bool)> }
 #[verifier::external_body]
-pub proof fn new_iflog() -> (tracked r: IfLog) ensures r.tried.len() == 0 { unimplemented!() }
+pub proof fn new_iflog() -> (tracked r: IfLog) ensures r.tried.len() == 0, r.calls.len() == 0 { unimplemented!() }
 #[verifier::external_body]
 pub proof fn note_branch(tracked il: &mut IfLog, passed: bool, cont: bool, brk: bool)
-    ensures final(il).tried == old(il).tried.push((passed, cont, brk))
+    ensures final(il).tried == old(il).tried.push((passed, cont, brk)), final(il).calls == old(il).calls
 { unimplemented!() }
+// (C14) while: every call is on the while node with in_loop = true, one call per round
+pub open spec fn while_rounds(wl: IfLog, node: VxPair) -> bool {
+    wl.calls.len() == wl.tried.len() && forall|k: int| 0 <= k < wl.calls.len() ==> (#[trigger] wl.calls[k]) == (node, true)
+}
+// the first n rounds passed their test and met no break
+pub open spec fn while_goes_on(wl: IfLog, n: int) -> bool { forall|k: int| 0 <= k < n ==> (#[trigger] wl.tried[k]).0 && !wl.tried[k].2 }
 pub open spec fn none_passed(il: IfLog) -> bool { forall|k: int| 0 <= k < il.tried.len() ==> !(#[trigger] il.tried[k]).0 }
 pub open spec fn only_the_last_passed(il: IfLog) -> bool { forall|k: int| 0 <= k < il.tried.len() - 1 ==> !(#[trigger] il.tried[k]).0 }
 
@@ -120,20 +205,50 @@ pub fn do_expansion(sh: &mut Shell, tokens: &mut Vec<(String, String)>, Tracked(
     ensures final(pl).passes == old(pl).passes.push(2int)
 { unimplemented!() }
 #[verifier::external_body]
-pub fn run_exp_test_br(sh: &mut Shell, pair_br: VxPair, args: &Vec<String>, in_loop: bool, capture: bool) -> (r: (Vec<CommandResult>, bool, bool, bool)) { unimplemented!() }
+pub fn run_exp_test_br(sh: &mut Shell, pair_br: VxPair, args: &Vec<String>, in_loop: bool, capture: bool, Tracked(il): Tracked<&mut IfLog>) -> (r: (Vec<CommandResult>, bool, bool, bool))
+    ensures final(il).calls == old(il).calls.push((pair_br, in_loop)), final(il).tried == old(il).tried
+{ unimplemented!() }
 #[verifier::external_body]
 pub fn vx_eprintln(s: &str) { }
 #[verifier::external_body]
-pub fn vx_eprint_err(e: &VxParseErr) { }
+pub fn vx_eprint_err(e: &VxParseErr, Tracked(lg): Tracked<&mut RunLog>)
+    ensures final(lg).started == old(lg).started, final(lg).checks == old(lg).checks, final(lg).evs == old(lg).evs, final(lg).ifs == old(lg).ifs,
+            final(lg).in_loop == old(lg).in_loop, final(lg).node == old(lg).node, final(lg).diagnosed
+{ }
 
 // ---- run_exp_test_br: the branch of an if / else-if / while is entered iff the LAST pipeline of its test line succeeded (or it is the else branch) ----
 // pass: some test of the branch passed (or it is the else branch); outs: what the commands of its tests wrote to stdout / stderr, in order
-pub ghost struct TestLog { pub pass: bool, pub outs: Seq<(Seq<char>, Seq<char>)> }
+// (C14) visited: how many children of the branch node were looked at; tests: the command lines run as tests, in order; body: the node, the in_loop flag and the
+// (continue, break) answer of the body that was run (at most one)
+pub ghost struct TestLog { pub pass: bool, pub outs: Seq<(Seq<char>, Seq<char>)>, pub visited: int, pub tests: Seq<Seq<char>>, pub body: Seq<(VxPair, bool, bool, bool)> }
 #[verifier::external_body]
-pub proof fn note_test(tracked tl: &mut TestLog, ok: bool) ensures final(tl).pass == (old(tl).pass || ok), final(tl).outs == old(tl).outs { unimplemented!() }
+pub proof fn note_test(tracked tl: &mut TestLog, ok: bool)
+    ensures final(tl).pass == (old(tl).pass || ok), final(tl).outs == old(tl).outs, final(tl).visited == old(tl).visited, final(tl).tests == old(tl).tests, final(tl).body == old(tl).body { unimplemented!() }
 pub open spec fn outs_of(c: Seq<CommandResult>) -> Seq<(Seq<char>, Seq<char>)> { c.map_values(|x: CommandResult| (x.stdout@, x.stderr@)) }
 #[verifier::external_body]
-pub proof fn note_outs(tracked tl: &mut TestLog, c: Seq<CommandResult>) ensures final(tl).pass == old(tl).pass, final(tl).outs == old(tl).outs + outs_of(c) { unimplemented!() }
+pub proof fn note_outs(tracked tl: &mut TestLog, c: Seq<CommandResult>)
+    ensures final(tl).pass == old(tl).pass, final(tl).outs == old(tl).outs + outs_of(c), final(tl).visited == old(tl).visited, final(tl).tests == old(tl).tests, final(tl).body == old(tl).body { unimplemented!() }
+#[verifier::external_body]
+pub proof fn note_visit(tracked tl: &mut TestLog)
+    ensures final(tl).pass == old(tl).pass, final(tl).outs == old(tl).outs, final(tl).visited == old(tl).visited + 1, final(tl).tests == old(tl).tests, final(tl).body == old(tl).body { unimplemented!() }
+#[verifier::external_body]
+pub proof fn note_test_line(tracked tl: &mut TestLog, line: Seq<char>)
+    ensures final(tl).pass == old(tl).pass, final(tl).outs == old(tl).outs, final(tl).visited == old(tl).visited, final(tl).tests == old(tl).tests.push(line), final(tl).body == old(tl).body { unimplemented!() }
+#[verifier::external_body]
+pub proof fn note_body(tracked tl: &mut TestLog, node: VxPair, in_loop: bool, c: bool, b: bool)
+    ensures final(tl).pass == old(tl).pass, final(tl).outs == old(tl).outs, final(tl).visited == old(tl).visited, final(tl).tests == old(tl).tests, final(tl).body == old(tl).body.push((node, in_loop, c, b)) { unimplemented!() }
+pub open spec fn is_head(r: Rule) -> bool { r == Rule::IF_HEAD || r == Rule::IF_ELSEIF_HEAD || r == Rule::WHILE_HEAD }
+// the TEST child of a head node (first child by the grammar)
+pub uninterp spec fn spec_head_test(head: VxPair) -> VxPair;
+// the test lines of the first n children of a branch node: the text of each head's test after the positional-parameter pass
+pub open spec fn tests_upto(ch: Seq<VxPair>, n: int, args: Seq<String>) -> Seq<Seq<char>>
+    decreases n
+{
+    if n <= 0 { Seq::empty() }
+    else if is_head(pair_rule(ch[n - 1])) { tests_upto(ch, n - 1, args).push(spec_expand_args(spec_trim(pair_text(spec_head_test(ch[n - 1]))), args.skip(1))) }
+    else { tests_upto(ch, n - 1, args) }
+}
+pub open spec fn no_body_before(ch: Seq<VxPair>, n: int) -> bool { forall|k: int| 0 <= k < n ==> pair_rule(#[trigger] ch[k]) != Rule::EXP_BODY }
 // the results of the tests come first in the result list of a branch, with what they wrote, and with status 0 (the status of a test picks the branch,
 // it is not a failure of the script: `set -e` and the status of the construct do not see it)
 pub open spec fn tests_first(c: Seq<CommandResult>, tl: TestLog) -> bool {
@@ -143,7 +258,7 @@ pub open spec fn tests_first(c: Seq<CommandResult>, tl: TestLog) -> bool {
 pub fn vx_clone_cr(c: &CommandResult) -> (r: CommandResult) ensures r == *c { unimplemented!() }
 // the TEST child of an IF_HEAD / IF_ELSEIF_HEAD / WHILE_HEAD node (first child by the grammar: assumed)
 #[verifier::external_body]
-pub fn vx_head_test(head: VxPair) -> (r: VxPair) { unimplemented!() }
+pub fn vx_head_test(head: VxPair) -> (r: VxPair) ensures r == spec_head_test(head) { unimplemented!() }
 // grammar: a branch node has only heads, `else` and a body as children (assumed)
 #[verifier::external_body]
 pub fn vx_unreachable_by_grammar() { }
@@ -223,7 +338,7 @@ RW = [
     Rw('execute::run_command_line(', 'run_command_line(', required=False, rule='R0'),
     Rw('&args[1..]', 'vx_args_tail(args)', required=False, rule='R12', why='slice from index 1: requires at least the script / function name in args'),
     Rw(r'println_stderr!\("([^"]*)"\);', r'vx_eprintln("\1");', regex=True, required=False, rule='R3', why='diagnostic output'),
-    Rw(r'println_stderr!\("syntax error: \{:\?\}", e\);', 'vx_eprint_err(&e);', regex=True, required=False, rule='R3', why='diagnostic output'),
+    Rw(r'println_stderr!\("syntax error: \{:\?\}", e\);', 'vx_eprint_err(&e, Tracked(lg));', regex=True, required=False, rule='R3', why='diagnostic output'),
     Rw(r'(?<![_A-Za-z0-9])cr_list\.last\(\)', 'vx_slice_last(cr_list)', regex=True, required=False, rule='R12', why='<[T]>::last through a shim with the std contract'),
 ]
 
@@ -233,43 +348,72 @@ stopped_by_error = Fn(S, 'stopped_by_error', ret='r', pre_rewrites=RW,
 run_exp = Fn(S, 'run_exp', ret='r', pre_rewrites=RW,
     add_params='Tracked(lg): Tracked<&mut RunLog>',
     requires=[('C05.pre.script.args_start_with_the_script_or_function_name', 'args@.len() >= 1'),
-              ('C15.pre.run_exp.fresh_log', 'old(lg).started == 0 && old(lg).checks.len() == 0')],
+              ('C15.pre.run_exp.fresh_log', 'old(lg).started == 0 && old(lg).checks.len() == 0 && old(lg).evs.len() == 0 && old(lg).ifs.len() == 0')],
     let_types={'cr_list': 'Vec<CommandResult>'},
     loop_kinds={0: 'value', (0, 'clone'): 'vx_clone_pair(&{})'},
     ensures=[
         # every statement of the body is started, unless continue / break was met or a failing command under `set -e` ended the script
-        ('C15.run_exp.every_statement_runs_unless_continue_break_or_a_failure_under_set_e',
+        ('C14+C15.run_exp.every_statement_runs_unless_continue_break_or_a_failure_under_set_e',
          'final(lg).started == pair_children(pair_in).len() || r.1 || r.2 || stop_spec(r.0@, *final(sh))'),
         # after `set -e` the first failing command ends the body: no statement is started after it, whatever kind of statement it was in
         ('C15.run_exp.nothing_runs_after_a_failing_command_under_set_e', 'nothing_after_stop(*final(lg))'),
+        # (C14) the statements started are the first `started` children of the node, and each was handed, in order, to the runner of its kind:
+        # a command line to run_command_line (after the positional-parameter pass), an if / for / while node to its runner (the if with this body's in_loop)
+        ('C14.run_exp.the_statements_are_run_in_the_order_written_each_by_the_runner_of_its_kind',
+         'final(lg).in_loop == in_loop && final(lg).node == pair_in && 0 <= final(lg).started <= pair_children(pair_in).len() '
+         '&& final(lg).evs == evs_upto(pair_children(pair_in), final(lg).started, in_loop, args@)'),
+        # (C14) `continue` / `break` (written here, or met by an `if` of this body) end the body at once and are reported to the caller -- the innermost loop --
+        # and to nobody else: the answer is exactly that of the last statement started
+        ('C14.run_exp.continue_and_break_end_the_body_at_once_and_are_what_the_last_statement_started_asked_for',
+         '(r.1 || r.2) ==> (final(lg).started >= 1 && exit_flags(final(lg).ifs, in_loop, pair_children(pair_in)[final(lg).started - 1], final(lg).started - 1) == Some((r.1, r.2)))'),
+        # (C14) ... and no statement that asked for one was passed over
+        ('C14.run_exp.no_continue_or_break_is_passed_over',
+         'forall|k: int| 0 <= k < final(lg).started - (if r.1 || r.2 { 1int } else { 0int }) ==> exit_none(final(lg).ifs, in_loop, #[trigger] pair_children(pair_in)[k], k)'),
     ],
     loops={0: Loop(invariant=[
         ('C05.inv.run_exp.args', 'args@.len() >= 1'),
         ('C15.inv.run_exp.started', 'lg.started == __i0'),
         ('C15.inv.run_exp.no_failure_so_far', 'no_stop_so_far(*lg)'),
         ('C11+C15.inv.run_exp.the_results_of_every_statement_are_kept_in_order', 'cr_list@ == g_all'),
+        ('C14.inv.run_exp.dispatched_so_far', '__v0@ == pair_children(pair_in) && lg.in_loop == in_loop && lg.node == pair_in && lg.ifs.len() == __i0 '
+                                              '&& lg.evs == evs_upto(__v0@, __i0 as int, in_loop, args@)'),
+        ('C14.inv.run_exp.nobody_asked_to_leave_so_far', 'forall|k: int| 0 <= k < __i0 ==> exit_none(lg.ifs, in_loop, #[trigger] __v0@[k], k)'),
     ])},
-    ghost_args={'run_exp_while': 'Tracked(&mut lgw)'},
-    hints={'fn-entry': 'RAW: let ghost mut g_all: Seq<CommandResult> = Seq::empty();',
-           'after-call:run_command_line': 'g_all = g_all + _cr_list@;', 'after-call:run_exp_if': 'g_all = g_all + _cr_list@;',
+    ghost_args={'run_exp_while': 'Tracked(&mut lgw), Tracked(&mut wlw)'},
+    hints={'fn-entry': 'RAW: let ghost mut g_all: Seq<CommandResult> = Seq::empty(); proof { note_entry(lg, pair_in, in_loop); }',
+           'after-call:run_command_line': 'g_all = g_all + _cr_list@;', 'after-call:run_exp_if': 'g_all = g_all + _cr_list@; note_if(lg, _cont, _brk);',
            'after-call:run_exp_for': 'g_all = g_all + _cr_list@;', 'after-call:run_exp_while': 'g_all = g_all + _cr_list@;',
+           'before-call:run_command_line': 'note_ev(lg, Ev::Cmd(line_new@));',
+           'before-call:run_exp_if': 'note_ev(lg, Ev::If(pair, in_loop));',
+           'before-call:run_exp_for': 'note_ev(lg, Ev::For(pair));',
            'before-text-all:return (cr_list,': 'LABEL:C11+C15.run_exp.what_is_returned_holds_the_results_of_every_statement_run: assert(cr_list@ == g_all);',
            'loop-0-body-entry': 'note_start(lg);',
-           'before-call:run_exp_while': 'RAW: let tracked mut lgw = new_log();',
+           'before-call:run_exp_while': 'RAW: let tracked mut lgw = new_log(); let tracked mut wlw = new_iflog(); proof { note_ev(lg, Ev::While(pair)); }',
            'before-text:if stopped_by_error(sh, &cr_list) {': 'note_check(lg, stop_spec(cr_list@, *sh));'},
 )
 
 run_exp_while = Fn(S, 'run_exp_while', ret='r', pre_rewrites=RW,
     attrs=['#[verifier::exec_allows_no_decreases_clause]'],
-    add_params='Tracked(lg): Tracked<&mut RunLog>',
-    requires=[('C15.pre.while.fresh_log', 'old(lg).started == 0 && old(lg).checks.len() == 0')],
+    add_params='Tracked(lg): Tracked<&mut RunLog>, Tracked(wl): Tracked<&mut IfLog>',
+    ghost_args={'run_exp_test_br': 'Tracked(wl)'},
+    requires=[('C15.pre.while.fresh_log', 'old(lg).started == 0 && old(lg).checks.len() == 0 && old(wl).tried.len() == 0 && old(wl).calls.len() == 0')],
     let_types={'cr_list': 'Vec<CommandResult>'},
-    ensures=[('C15.while.no_round_after_a_failing_command_under_set_e', 'nothing_after_stop(*final(lg))')],
-    loops={0: Loop(invariant_except_break=[('C15.inv.while.no_failure_so_far', 'no_stop_so_far(*lg)')],
-                   invariant=[('C11+C15.inv.while.the_results_of_every_round_are_kept_in_order', 'cr_list@ == g_all')],
-                   ensures=[('C15.while.loop_left_with_nothing_after_a_failure', 'nothing_after_stop(*lg)')])},
+    ensures=[('C15.while.no_round_after_a_failing_command_under_set_e', 'nothing_after_stop(*final(lg))'),
+             # (C14) every round is one call of the branch runner on the while node itself -- which runs the test first and the body only if it passed -- as a loop body
+             ('C14.while.the_test_is_run_again_before_every_round', 'while_rounds(*final(wl), pair_while)'),
+             # (C14) a round follows exactly when the test passed, no `break` was met (a `continue` goes on to the next test) and no failure under `set -e` ended the script
+             ('C14.while.the_loop_goes_on_exactly_while_the_test_passes_and_no_break_is_met',
+              'final(wl).tried.len() >= 1 && while_goes_on(*final(wl), final(wl).tried.len() - 1) '
+              '&& (!final(wl).tried.last().0 || final(wl).tried.last().2 || stop_spec(r@, *final(sh)))')],
+    loops={0: Loop(invariant_except_break=[('C15.inv.while.no_failure_so_far', 'no_stop_so_far(*lg)'),
+                                           ('C14.inv.while.every_round_so_far_passed_without_break', 'while_goes_on(*wl, wl.tried.len() as int)')],
+                   invariant=[('C11+C15.inv.while.the_results_of_every_round_are_kept_in_order', 'cr_list@ == g_all'),
+                              ('C14.inv.while.rounds', 'while_rounds(*wl, pair_while)')],
+                   ensures=[('C15.while.loop_left_with_nothing_after_a_failure', 'nothing_after_stop(*lg)'),
+                            ('C14.while.loop_left_at_the_first_round_that_failed_its_test_or_met_break',
+                             'wl.tried.len() >= 1 && while_goes_on(*wl, wl.tried.len() - 1) && (!wl.tried.last().0 || wl.tried.last().2 || stop_spec(cr_list@, *sh))')])},
     hints={'fn-entry': 'RAW: let ghost mut g_all: Seq<CommandResult> = Seq::empty();',
-           'after-call:run_exp_test_br': 'g_all = g_all + _cr_list@;',
+           'after-call:run_exp_test_br': 'g_all = g_all + _cr_list@; note_branch(wl, passed, _cont, _brk);',
            'loop-0-body-entry': 'note_start(lg);',
            'before-text:if !passed || _brk': 'note_check(lg, stop_spec(cr_list@, *sh));'},
 )
@@ -278,15 +422,22 @@ run_lines = Fn(S, 'run_lines', ret='r', pre_rewrites=RW,
     add_params='Tracked(lg): Tracked<&mut RunLog>',
     ghost_args={'run_exp': 'Tracked(&mut lg2)'},
     requires=[('C05.pre.lines.args_start_with_the_script_or_function_name', 'args@.len() >= 1'),
-              ('C15.pre.lines.fresh_log', 'old(lg).started == 0 && old(lg).checks.len() == 0')],
+              ('C15.pre.lines.fresh_log', 'old(lg).started == 0 && old(lg).checks.len() == 0 && !old(lg).diagnosed')],
     let_types={'cr_list': 'Vec<CommandResult>'},
     loop_kinds={0: 'value', (0, 'clone'): 'vx_clone_pair(&{})'},
-    ensures=[('C15.lines.no_statement_after_a_failing_command_under_set_e', 'nothing_after_stop(*final(lg))')],
-    loops={0: Loop(invariant=[('C05.inv.lines.args', 'args@.len() >= 1'), ('C11+C15.inv.lines.the_results_of_every_statement_are_kept_in_order', 'cr_list@ == g_all')],
+    ensures=[('C15.lines.no_statement_after_a_failing_command_under_set_e', 'nothing_after_stop(*final(lg))'),
+             # (C14) a text the grammar rejects (block keywords that do not balance) is diagnosed and nothing of it is run
+             ('C14.lines.a_text_that_is_not_a_well_formed_script_is_diagnosed_and_nothing_of_it_runs',
+              'spec_parse(lines@).is_none() ==> (final(lg).diagnosed && final(lg).started == 0 && r@.len() == 0)'),
+             ('C14.lines.every_top_level_node_is_run_unless_a_failure_under_set_e_ends_the_script',
+              'spec_parse(lines@).is_some() ==> (final(lg).started == spec_parse(lines@).unwrap().len() || stop_spec(r@, *final(sh)))')],
+    loops={0: Loop(invariant=[('C05.inv.lines.args', 'args@.len() >= 1'), ('C11+C15.inv.lines.the_results_of_every_statement_are_kept_in_order', 'cr_list@ == g_all'),
+                              ('C14.inv.lines.nodes', 'spec_parse(lines@) == Some(__v0@) && lg.started == __i0')],
                    invariant_except_break=[('C15.inv.lines.no_failure_so_far', 'no_stop_so_far(*lg)')],
-                   ensures=[('C15.lines.loop_left_with_nothing_after_a_failure', 'nothing_after_stop(*lg)')])},
+                   ensures=[('C15.lines.loop_left_with_nothing_after_a_failure', 'nothing_after_stop(*lg)'),
+                            ('C14.lines.loop_left_early_only_at_a_failure_under_set_e', 'lg.started == __v0@.len() || stop_spec(cr_list@, *sh)')])},
     hints={'fn-entry': 'RAW: let ghost mut g_all: Seq<CommandResult> = Seq::empty();',
-           'after-call:run_exp': 'g_all = g_all + _cr_list@;',
+           'after-call:run_exp': 'g_all = g_all + _cr_list@; ;;; LABEL:C14.lines.a_top_level_node_is_run_outside_any_loop: assert(lg2.node == pair && !lg2.in_loop && pair == __v0@[__i0 - 1]);',
            'loop-0-body-entry': 'note_start(lg);',
            'before-call:run_exp': 'RAW: let tracked mut lg2 = new_log();',
            'before-text:if stopped_by_error(sh, &cr_list) {': 'note_check(lg, stop_spec(cr_list@, *sh));'},
@@ -301,36 +452,58 @@ test_br = Fn(S, 'run_exp_test_br', rename='run_exp_test_br_real', ret='r',
     ],
     add_params='Tracked(tl): Tracked<&mut TestLog>',
     ghost_args={'run_exp': 'Tracked(&mut lg2)'},
-    requires=[('C05.pre.test_br.args', 'args@.len() >= 1'), ('C03+C15.pre.test_br.fresh', '!old(tl).pass && old(tl).outs.len() == 0')],
+    requires=[('C05.pre.test_br.args', 'args@.len() >= 1'), ('C03+C15.pre.test_br.fresh', '!old(tl).pass && old(tl).outs.len() == 0 && old(tl).visited == 0 && old(tl).tests.len() == 0 && old(tl).body.len() == 0')],
     let_types={'cr_list': 'Vec<CommandResult>'},
     loop_kinds={0: 'value', (0, 'clone'): 'vx_clone_pair(&{})', 1: 'value', (1, 'clone'): 'vx_clone_cr(&{})'},
-    ensures=[('C03+C15.test_br.a_branch_is_taken_iff_the_last_pipeline_of_a_test_of_it_succeeded_or_it_is_the_else_branch', 'r.1 == final(tl).pass'),
-             ('C11+C15.test_br.what_the_tests_wrote_is_in_the_result_list_and_their_status_is_not_a_failure', 'tests_first(r.0@, *final(tl))')],
+    ensures=[('C03+C14+C15.test_br.a_branch_is_taken_iff_the_last_pipeline_of_a_test_of_it_succeeded_or_it_is_the_else_branch', 'r.1 == final(tl).pass'),
+             ('C11+C15.test_br.what_the_tests_wrote_is_in_the_result_list_and_their_status_is_not_a_failure', 'tests_first(r.0@, *final(tl))'),
+             # (C14) the children of the branch node are looked at in order up to (and including) its body; the test of every head on the way is run, as written, after the positional-parameter pass
+             ('C14.test_br.the_tests_run_are_those_of_the_heads_written_before_the_body_in_order',
+              '0 <= final(tl).visited <= pair_children(pair_br).len() && final(tl).tests == tests_upto(pair_children(pair_br), final(tl).visited, args@) '
+              '&& no_body_before(pair_children(pair_br), final(tl).visited - 1) '
+              '&& (final(tl).visited == pair_children(pair_br).len() || pair_rule(pair_children(pair_br)[final(tl).visited - 1]) == Rule::EXP_BODY)'),
+             # (C14) the body is run exactly when the test passed (or this is the else branch), once, inside the same loop as the construct, and its continue / break are reported
+             ('C14.test_br.the_body_runs_exactly_when_the_test_passed_and_its_continue_or_break_is_reported',
+              'final(tl).body.len() <= 1 '
+              '&& (final(tl).body.len() == 1 <==> (final(tl).pass && final(tl).visited >= 1 && pair_rule(pair_children(pair_br)[final(tl).visited - 1]) == Rule::EXP_BODY)) '
+              '&& (final(tl).body.len() == 1 ==> final(tl).body[0] == (pair_children(pair_br)[final(tl).visited - 1], in_loop, r.2, r.3)) '
+              '&& (final(tl).body.len() == 0 ==> (!r.2 && !r.3))')],
     loops={0: Loop(invariant=[('C03+C15.inv.test_br.flag', 'test_pass == tl.pass && args@.len() >= 1'),
-                              ('C11+C15.inv.test_br.tests_first', 'tests_first(cr_list@, *tl) && cr_list@.len() == tl.outs.len()')]),
+                              ('C11+C15.inv.test_br.tests_first', 'tests_first(cr_list@, *tl) && cr_list@.len() == tl.outs.len()'),
+                              ('C14.inv.test_br.visited', '__v0@ == pair_children(pair_br) && tl.visited == __i0 && tl.tests == tests_upto(__v0@, __i0 as int, args@) && no_body_before(__v0@, __i0 as int) && tl.body.len() == 0')]),
            1: Loop(invariant=[('C03+C15.inv.test_br.flag_while_the_results_are_kept', 'test_pass == tl.pass && args@.len() >= 1'),
                               ('C11+C15.inv.test_br.appending', 'cr_list@.len() == g_n + __i1 && tl.outs.len() == g_n + __v1@.len() && tl.outs.subrange(g_n as int, tl.outs.len() as int) == outs_of(__v1@) '
-                               '&& forall|k: int| 0 <= k < cr_list@.len() ==> (#[trigger] cr_list@[k]).status == 0 && (cr_list@[k].stdout@, cr_list@[k].stderr@) == tl.outs[k]')])},
+                               '&& forall|k: int| 0 <= k < cr_list@.len() ==> (#[trigger] cr_list@[k]).status == 0 && (cr_list@[k].stdout@, cr_list@[k].stderr@) == tl.outs[k]'),
+                              ('C14.inv.test_br.visited_inner', '__v0@ == pair_children(pair_br) && tl.visited == __i0 && tl.tests == tests_upto(__v0@, __i0 as int, args@) && no_body_before(__v0@, __i0 as int) && tl.body.len() == 0 && __i0 >= 1 && is_head(pair_rule(__v0@[__i0 - 1]))')])},
     hints={'after-call:run_command_line': 'note_test(tl, _cr_list@.len() > 0 && _cr_list@.last().status == 0); ;;; RAW: let ghost g_n = cr_list@.len(); proof { note_outs(tl, _cr_list@); }',
+           'before-call:run_command_line': 'note_test_line(tl, line_new@);',
            'before-text-all:test_pass = true;': 'note_test(tl, true);',
+           'loop-0-body-entry': 'note_visit(tl);',
            'loop-1-body-entry': 'assert(tl.outs.subrange(g_n as int, tl.outs.len() as int)[__i1 as int] == outs_of(__v1@)[__i1 as int]); assert(tl.outs[g_n + __i1] == (__v1@[__i1 as int].stdout@, __v1@[__i1 as int].stderr@));',
-           'before-call:run_exp': 'RAW: let tracked mut lg2 = new_log();'},
+           'before-call:run_exp': 'RAW: let tracked mut lg2 = new_log();',
+           'after-call:run_exp': 'note_body(tl, lg2.node, lg2.in_loop, _cont, _brk);'},
 )
 
 exp_if = Fn(S, 'run_exp_if', rename='run_exp_if_real', ret='r', pre_rewrites=RW,
     add_params='Tracked(il): Tracked<&mut IfLog>',
-    requires=[('C15.pre.if.fresh_log', 'old(il).tried.len() == 0')],
+    ghost_args={'run_exp_test_br': 'Tracked(il)'},
+    requires=[('C15.pre.if.fresh_log', 'old(il).tried.len() == 0 && old(il).calls.len() == 0')],
     let_types={'cr_list': 'Vec<CommandResult>'},
     loop_kinds={0: 'value', (0, 'clone'): 'vx_clone_pair(&{})'},
     ensures=[
-        ('C15.if.branches_are_tried_in_order_up_to_the_first_whose_test_passes',
+        ('C14+C15.if.branches_are_tried_in_order_up_to_the_first_whose_test_passes',
          'only_the_last_passed(*final(il)) && final(il).tried.len() <= pair_children(pair_if).len()'
          ' && (final(il).tried.len() == pair_children(pair_if).len() || (final(il).tried.len() > 0 && final(il).tried.last().0))'),
-        ('C15.if.continue_and_break_are_those_of_the_last_branch_tried',
+        ('C14+C15.if.continue_and_break_are_those_of_the_last_branch_tried',
          'final(il).tried.len() > 0 ==> (r.1 == final(il).tried.last().1 && r.2 == final(il).tried.last().2)'),
+        # (C14) the k-th branch tried is the k-th branch written, and it is run inside the same loop (or outside any) as the `if` itself
+        ('C14.if.the_branches_tried_are_the_branches_written_in_order_each_inside_the_same_loop_as_the_if',
+         'final(il).calls.len() == final(il).tried.len() && forall|k: int| 0 <= k < final(il).calls.len() ==> (#[trigger] final(il).calls[k]) == (pair_children(pair_if)[k], in_loop)'),
+        ('C14.if.without_a_branch_there_is_no_continue_or_break', 'final(il).tried.len() == 0 ==> (!r.1 && !r.2)'),
     ],
     loops={0: Loop(invariant_except_break=[('C15.inv.if.tried', 'il.tried.len() == __i0 && none_passed(*il)')],
-                   invariant=[('C11+C15.inv.if.the_results_of_every_branch_tried_are_kept_in_order', 'cr_list@ == g_all'), ('C15.inv.if.flags', 'il.tried.len() <= __v0@.len() && __v0@ == pair_children(pair_if) && (il.tried.len() > 0 ==> (met_continue == il.tried.last().1 && met_break == il.tried.last().2))')],
+                   invariant=[('C11+C15.inv.if.the_results_of_every_branch_tried_are_kept_in_order', 'cr_list@ == g_all'), ('C15.inv.if.flags', 'il.tried.len() <= __v0@.len() && __v0@ == pair_children(pair_if) && (il.tried.len() > 0 ==> (met_continue == il.tried.last().1 && met_break == il.tried.last().2))'),
+                              ('C14.inv.if.calls', 'il.calls.len() == il.tried.len() && (il.tried.len() == 0 ==> (!met_continue && !met_break)) && forall|k: int| 0 <= k < il.calls.len() ==> (#[trigger] il.calls[k]) == (__v0@[k], in_loop)')],
                    ensures=[('C15.if.loop_left_at_the_end_or_at_the_first_branch_that_passed',
                              'only_the_last_passed(*il) && (il.tried.len() == __v0@.len() || (il.tried.len() > 0 && il.tried.last().0))')])},
     hints={'fn-entry': 'RAW: let ghost mut g_all: Seq<CommandResult> = Seq::empty();',
@@ -346,19 +519,24 @@ exp_for = Fn(S, 'run_exp_for', rename='run_exp_for_real', ret='r',
     ensures=[],
     loops={0: Loop(invariant=[('C05.inv.for.args', 'args@.len() >= 1'), ('C11+C15.inv.for.results_so_far', 'cr_list@ == g_all')]),
            # the results of every round that was run are in the list, in order -- also of the round that ends the loop
-           1: Loop(invariant=[('C05.inv.for.args_inner', 'args@.len() >= 1'), ('C11+C15.inv.for.the_results_of_every_round_are_kept_in_order', 'cr_list@ == g_all')],
+           1: Loop(invariant=[('C05.inv.for.args_inner', 'args@.len() >= 1'), ('C11+C15.inv.for.the_results_of_every_round_are_kept_in_order', 'cr_list@ == g_all'),
+                              ('C14.inv.for.the_node_is_the_body', 'rule == Rule::EXP_BODY && rule == pair_rule(pair)')],
                    invariant_except_break=[('C15.inv.for.rounds_so_far', 'fl.rounds == rounds_of(var_name@, result_list@, __i1 as int) && lgf.started == __i1 && no_stop_so_far(lgf)')],
                    ensures=[('C15.for.loop_left_with_a_prefix_of_the_rounds', 'exists|n: int| 0 <= n <= result_list@.len() && fl.rounds == rounds_of(var_name@, result_list@, n)'),
-                            ('C15.for.no_round_after_a_failing_command_under_set_e', 'nothing_after_stop(lgf)')])},
-    hints={'fn-entry': 'RAW: let ghost mut g_all: Seq<CommandResult> = Seq::empty();',
-           'after-call:run_exp': 'g_all = g_all + _cr_list@;',
+                            ('C15.for.no_round_after_a_failing_command_under_set_e', 'nothing_after_stop(lgf)'),
+                            ('C14.for.loop_left_early_only_at_a_break_or_a_failure_under_set_e',
+                             'fl.rounds.len() == result_list@.len() || g_brk || stop_spec(cr_list@, *sh)')])},
+    hints={'fn-entry': 'RAW: let ghost mut g_all: Seq<CommandResult> = Seq::empty(); let ghost mut g_brk: bool = false;',
+           'after-call:run_exp': 'g_all = g_all + _cr_list@; g_brk = _brk; ;;; '
+                                 'LABEL:C14.for.every_round_runs_the_body_of_the_loop_as_a_loop_body: assert(lg2.node == pair && lg2.in_loop && pair_rule(pair) == Rule::EXP_BODY);',
            'after-text:if rule == Rule::EXP_BODY {': 'RAW: let tracked mut fl = new_forlog(); let tracked mut lgf = new_log();',
            'after-call:get_for_result_list': 'LABEL:C15.for.the_word_list_is_computed_from_the_whole_argument_vector: assert(result_list@ == for_words(pair, args@));',
            'loop-1-body-entry': 'note_start(&mut lgf);',
            'before-call:run_exp': 'RAW: let tracked mut lg2 = new_log();',
            'after-call:append': 'note_check(&mut lgf, stop_spec(cr_list@, *sh)); assert(fl.rounds =~= rounds_of(var_name@, result_list@, __i1 as int));',
-           'loop-1-exit': 'LABEL:C10+C15.for.one_round_per_word_in_order_with_the_variable_set_to_it: assert(exists|n: int| 0 <= n <= result_list@.len() && fl.rounds == rounds_of(var_name@, result_list@, n));'
-                          ' ;;; LABEL:C15.for.nothing_runs_after_a_failing_command_under_set_e: assert(nothing_after_stop(lgf));'},
+           'loop-1-exit': 'LABEL:C10+C14+C15.for.one_round_per_word_in_order_with_the_variable_set_to_it: assert(exists|n: int| 0 <= n <= result_list@.len() && fl.rounds == rounds_of(var_name@, result_list@, n));'
+                          ' ;;; LABEL:C15.for.nothing_runs_after_a_failing_command_under_set_e: assert(nothing_after_stop(lgf));'
+                          ' ;;; LABEL:C14.for.every_word_gets_its_round_unless_a_break_or_a_failure_under_set_e_ends_the_loop: assert(fl.rounds.len() == result_list@.len() || g_brk || stop_spec(cr_list@, *sh));'},
 )
 
 for_words = Fn(S, 'expand_line_to_toknes', ret='r',
@@ -397,7 +575,7 @@ run_script = Fn(S, 'run_script', ret='r',
                                     'assert(status == (if cr_list@.len() > 0 { cr_list@.last().status } else { 0 }));'},
 )
 UNIT = Unit('U-SCRIPT', TEMPLATE, fns=[run_script, stopped_by_error, run_exp_while, run_exp, test_br, exp_if, exp_for, for_words, run_lines],
-            types=[TypeItem('src/types.rs', 'struct', 'CommandResult')], props=('C15', 'C05'))
+            types=[TypeItem('src/types.rs', 'struct', 'CommandResult')], props=('C15', 'C14', 'C05'))
 TRUSTED = common.TRUSTED_STR + [
     'the pest parse tree is opaque: the text, rule and children of a node are uninterpreted (the grammar locust.pest is outside the verifier); '
     'which statements a script text consists of is exercised by the bounded script cases only',
